@@ -230,6 +230,8 @@ def contains(eng, st, container, item) -> list:
 def getitem(eng, st, v, k) -> list:
     from .engine import SBytes, SConstMap
     from . import bytesalg
+    if isinstance(v, SGen) and eng.pure:
+        v = v.lst
     if isinstance(v, SAny):
         out = []
         for s, w in eng.narrow(st, v):
@@ -553,6 +555,8 @@ def b_len(eng, st, args, kw):
     from .engine import SBytes, SConstMap
     from . import bytesalg
     (v,) = args
+    if isinstance(v, SGen):
+        v = v.lst  # a generator that was run into the list of what it yields (see Engine.inline_call / comprehension): in specs it IS that list
     if isinstance(v, SAny):
         out = []
         for s, w in eng.narrow(st, v):
